@@ -58,7 +58,16 @@ def brief(e):
     return r
 
 
-def judge_traces(run, jobs, props, spec="TraceGame"):
+def bounds_panic(fail):
+    """C15 is about out-of-range accesses: a panic of the checked build counts when it is an index / capacity / range /
+    unsafe-precondition failure (or the process died), not when it is an arithmetic overflow check."""
+    text = json.dumps(fail.get("d") or {})
+    if "overflow" in text and not any(k in text for k in ("CAPACITY", "index out of", "out of range", "unsafe precondition", "contains(")):
+        return False
+    return True
+
+
+def judge_traces(run, jobs, props, spec="TraceGame", panic_filter=None):
     """jobs: list of (trace path, description).  Validates each with TLC (in parallel) and
     attributes FAIL judgements: those in `props` (plus PANIC) to this run's property."""
     def one(job):
@@ -77,6 +86,11 @@ def judge_traces(run, jobs, props, spec="TraceGame"):
                 continue
             if f["p"] == "HARNESS":
                 raise core.ToolError("harness inconsistency: %s %s" % (f["w"], json.dumps(f["d"])[:500]))
+            if f["p"] == "PANIC" and panic_filter is not None and not panic_filter(f):
+                note = "arithmetic-overflow panic of the checked build (not a bounds failure): " + json.dumps(f["d"])[:200]
+                if len(run.notes) < 6:
+                    run.notes.append(note)
+                continue
             if f["p"] in props or f["p"] == "PANIC":
                 actions, last = extract_segment(path, f["line"])
                 run.violation(f, {"driver": "game-trace", "source": desc, "event_index_in_segment": len(actions),
@@ -119,7 +133,7 @@ def play_traces(run, vh, prop, n_traces, games, plies, walk, seed):
     return jobs
 
 
-def family_traces(run, vh, prop, fam_files, per_chunk=400):
+def family_traces(run, vh, prop, fam_files, per_chunk=400, succ=1, label="fam"):
     """fam_files: list of files of FENs (TLC generated). Returns jobs."""
     d = os.path.join(TRACES, prop)
     os.makedirs(d, exist_ok=True)
@@ -130,11 +144,11 @@ def family_traces(run, vh, prop, fam_files, per_chunk=400):
 
     def mk(ic):
         i, chunk = ic
-        lst = os.path.join(d, "fam-%d.fens" % i)
+        lst = os.path.join(d, "%s-%d.fens" % (label, i))
         with open(lst, "w") as f:
             f.write("\n".join(chunk) + "\n")
-        out = os.path.join(d, "fam-%d.ndjson" % i)
-        core.sh([vh, "fens", "--fens", lst, "--out", out, "--succ", "1"])
+        out = os.path.join(d, "%s-%d.ndjson" % (label, i))
+        core.sh([vh, "fens", "--fens", lst, "--out", out, "--succ", str(succ)])
         return (out, "vh fens (TLC-generated family chunk %d: %s ...)" % (i, chunk[0]))
     return core.pmap(mk, list(enumerate(chunks)))
 
